@@ -1153,3 +1153,252 @@ Example raises_nonvacuous :
   get_key Utf8 CURSES true [195] = Key [120; 67; 51] /\
   mem [27; 91; 49] tree_nodes = true.
 Proof. vm_compute. repeat split. Qed.
+
+(* ======================================================================= *)
+(* C03: recognised sequences and characters are never broken up and never    *)
+(* merged with what follows -- for ALL streams of such tokens                *)
+
+(* what the decoder does with the token t when it starts on it *)
+Definition tok_ok (enc : encoding) (t : list N) : Prop :=
+  t <> [] /\
+  (forall i, (1 <= i < length t)%nat -> get_key enc BYTES false (firstn i t) = More) /\
+  (forall full, get_key enc BYTES full t = Key t).
+
+Lemma find_key_go_token : forall enc t rest, tok_ok enc t ->
+  forall suf cur, cur ++ suf = t -> suf <> [] ->
+  find_key_go enc BYTES cur (suf ++ rest) = Ok (Some (t, t, rest)).
+Proof.
+  intros enc t rest [Hne [Hpre Hfull]]. induction suf as [|b suf IH]; intros cur E Hs; [contradiction|].
+  cbn [app find_key_go]. destruct suf as [|b' suf'].
+  - cbn [app] in *. rewrite E, Hfull. reflexivity.
+  - assert (P : cur ++ [b] = firstn (length (cur ++ [b])) t).
+    { rewrite <- E. replace (cur ++ b :: b' :: suf') with ((cur ++ [b]) ++ b' :: suf') by (now rewrite <- app_assoc).
+      rewrite firstn_app, Nat.sub_diag, firstn_all. cbn [firstn]. now rewrite app_nil_r. }
+    assert (F : is_nil ((b' :: suf') ++ rest) = false) by reflexivity. rewrite F.
+    rewrite P, Hpre.
+    + rewrite <- P. apply IH; [|discriminate]. now rewrite <- app_assoc.
+    + rewrite <- E, !app_length. cbn [length]. lia.
+Qed.
+
+Lemma find_keys_tokens : forall enc toks n, Forall (tok_ok enc) toks -> (length toks < n)%nat ->
+  find_keys_n n enc BYTES (concat toks) = Ok (map (fun t => (t, t)) toks, []).
+Proof.
+  intros enc toks. induction toks as [|t toks IH]; intros n H L.
+  - destruct n; [lia|]. reflexivity.
+  - destruct n; [cbn [length] in L; lia|]. inversion H as [|? ? Ht Hts]; subst.
+    cbn [concat find_keys_n]. unfold find_key.
+    rewrite (find_key_go_token enc t (concat toks) Ht t []); [|reflexivity|apply Ht].
+    rewrite (IH n Hts); [reflexivity|]. cbn [length] in L. lia.
+Qed.
+
+(* the tokens of the property: a table sequence that is not the beginning of a
+   longer one (and, under utf-8, not one of the 8-bit Meta bytes), or a
+   character (any Unicode scalar value under utf-8) that is not a table sequence *)
+Inductive token (enc : encoding) : list N -> Prop :=
+| tok_table : forall k, In k table_keys -> growable k = false -> meta_collision enc k = false -> token enc k
+| tok_char : forall c bs, encode_char enc c = Some bs -> is_table_seq bs = false -> token enc bs.
+
+Lemma table_key_nonempty : forallb (fun k => nonempty k) table_keys = true.
+Proof. vm_compute. reflexivity. Qed.
+
+Lemma encode_char_nonempty : forall enc c bs, encode_char enc c = Some bs -> bs <> [].
+Proof.
+  intros enc c bs E. destruct enc; cbn [encode_char] in E.
+  - destruct (is_scalar c); [|discriminate]. inversion E. unfold utf8_encode.
+    destruct (c <? 128); [discriminate|]. destruct (c <? 2048); [discriminate|].
+    destruct (c <? 65536); discriminate.
+  - destruct (c <? 128); [|discriminate]. inversion E. discriminate.
+  - destruct (c <? 256); [|discriminate]. inversion E. discriminate.
+Qed.
+
+Lemma token_tok_ok : forall enc t, token enc t -> tok_ok enc t.
+Proof.
+  intros enc t [k Hk G M | c bs E T].
+  - destruct (table_entry_decoding k enc BYTES Hk) as [P [[n [K1 N1]] [_ K0]]].
+    destruct (K0 G M) as [m [K2 N2]]. cbn [name_ok] in N1, N2. apply str_eqb_eq in N1, N2. subst.
+    split; [|split].
+    + pose proof table_key_nonempty as NE. rewrite forallb_forall in NE. specialize (NE k Hk).
+      destruct k; [discriminate|discriminate].
+    + exact P.
+    + intros [|]; assumption.
+  - destruct (chars_as_themselves enc BYTES c bs E T) as [P K]. split; [|split].
+    + eapply encode_char_nonempty; eassumption.
+    + exact P.
+    + exact K.
+Qed.
+
+(* every stream of such tokens, of any length, in every encoding and naming
+   mode, is cut exactly at the token boundaries, nothing is left over, and
+   (C03_lossless) every key is the name of its token *)
+Theorem tokens_decoded_exactly : forall enc mode toks, Forall (token enc) toks ->
+  cuts (find_keys enc mode (concat toks)) = Ok (toks, []).
+Proof.
+  intros enc mode toks H. unfold find_keys. rewrite (cuts_mode_independent enc mode BYTES).
+  assert (T : Forall (tok_ok enc) toks) by (eapply Forall_impl; [apply token_tok_ok | exact H]).
+  assert (L : (length toks <= length (concat toks))%nat).
+  { clear H. induction T as [|t toks [Hne _] _ IH]; [cbn; lia|].
+    cbn [concat length]. rewrite app_length. destruct t; [contradiction|]. cbn [length]. lia. }
+  rewrite (find_keys_tokens enc toks _ T); [|lia]. cbn [cuts]. rewrite map_map. cbn [snd]. now rewrite map_id.
+Qed.
+
+Example tokens_nonvacuous :
+  mem [27; 91; 65] table_keys = true /\ growable [27; 91; 65] = false /\
+  encode_char Utf8 233 = Some [195; 169] /\ is_table_seq [195; 169] = false /\
+  cuts (find_keys Utf8 CURSES (concat [[27; 91; 65]; [195; 169]; [27; 91; 65]; [97]])) =
+    Ok ([[27; 91; 65]; [195; 169]; [27; 91; 65]; [97]], []).
+Proof. vm_compute. repeat split. Qed.
+
+(* ======================================================================= *)
+(* C03 item 2, corollary: on valid input the decoder fails ONLY in F-C03     *)
+
+(* valid input, byte-wise: ASCII bytes (every ESC-initiated table sequence
+   consists of them), any byte under latin-1, well-formed multi-byte
+   characters under utf-8 *)
+Inductive atom (enc : encoding) : list N -> Prop :=
+| atom_ascii : forall b, b < 128 -> atom enc [b]
+| atom_latin1 : forall b, enc = Latin1 -> b < 256 -> atom enc [b]
+| atom_utf8 : forall c, enc = Utf8 -> is_scalar c = true -> 128 <= c -> atom enc (utf8_encode c).
+
+Lemma esc_table_keys_ascii :
+  forallb (fun k => negb (starts_esc k) || all_ascii k) table_keys = true.
+Proof. vm_compute. reflexivity. Qed.
+
+(* somewhere in the stream a member of KEYMAP_PREFIXES is directly followed by a byte >= 0x80 *)
+Definition fc03_in (buf : list N) : Prop :=
+  exists pre p b post, buf = pre ++ p ++ b :: post /\ In p keymap_prefixes /\ 128 <= b.
+
+Lemma prefix_nonempty : ~ In [] keymap_prefixes.
+Proof.
+  intro H. apply in_prefixes_In in H. rewrite prefixes_correct in H. discriminate.
+Qed.
+
+Lemma multibyte_not_table : forall s, has_high s = true -> (2 <= length s)%nat -> is_table_seq s = false.
+Proof.
+  intros s H L. destruct (is_table_seq s) eqn:T; [|reflexivity]. exfalso.
+  unfold is_table_seq, mem, table_keys in T. rewrite existsb_app in T.
+  destruct (high_long_not_table s H L) as [Lc Ls].
+  assert (G : forall t, existsb (bytes_eqb s) (map fst t) = true -> exists v, lookup t s = Some v).
+  { intros t E. apply existsb_exists in E. destruct E as [k [Hk E]]. apply bytes_eqb_eq in E. subst k.
+    apply in_map_iff in Hk. destruct Hk as [[k v] [E Hin]]. cbn [fst] in E. subst k. eapply In_lookup; eauto. }
+  apply orb_true_iff in T. destruct T as [T|T]; apply G in T; destruct T as [v T]; congruence.
+Qed.
+
+Lemma utf8_atom_shape : forall c, is_scalar c = true -> 128 <= c ->
+  exists b0 tail, utf8_encode c = b0 :: tail /\ 128 <= b0 < 256 /\ tail <> [] /\
+                  has_high (utf8_encode c) = true /\ (2 <= length (utf8_encode c) <= 4)%nat.
+Proof.
+  intros c S L. pose proof (encode_wf c S L) as W.
+  destruct (utf8_encode c) as [|b0 [|b1 [|b2 [|b3 [|b4 r]]]]]; try contradiction; destruct W as [W _];
+    exists b0; eexists; (split; [reflexivity|]);
+    unfold wf2, wf3, wf4, is_cont, in_range in W;
+    (split; [lia|]); (split; [discriminate|]); (split; [apply has_high_cons; lia | cbn [length]; lia]).
+Qed.
+
+Definition ok_state (cur : list N) (atoms : list (list N)) : Prop :=
+  cur = [] \/ (In cur keymap_prefixes /\ atoms <> []).
+
+Definition go_result (enc : encoding) (cur : list N) (atoms : list (list N))
+           (r : res (option (str * list N * list N))) : Prop :=
+  match r with
+  | Raise e => enc <> Latin1 /\ e = UnicodeDecodeError /\
+               exists p b post, cur ++ concat atoms = p ++ b :: post /\ In p keymap_prefixes /\ 128 <= b
+  | Ok None => atoms = []
+  | Ok (Some (_, _, rest)) => exists used' atoms', atoms = used' ++ atoms' /\ rest = concat atoms'
+  end.
+
+Lemma concat_nil_atoms : forall enc atoms, Forall (atom enc) atoms -> concat atoms = [] -> atoms = [].
+Proof.
+  intros enc atoms H E. destruct H as [|a atoms Ha _]; [reflexivity|]. exfalso. cbn [concat] in E.
+  destruct Ha; try discriminate.
+  destruct (utf8_atom_shape c) as [b0 [tail [E' _]]]; try assumption. rewrite E' in E. discriminate.
+Qed.
+
+Lemma find_key_go_valid : forall enc atoms, Forall (atom enc) atoms ->
+  forall cur, ok_state cur atoms -> go_result enc cur atoms (find_key_go enc BYTES cur (concat atoms)).
+Proof.
+  intros enc atoms H. induction H as [|a atoms Ha Hs IH]; intros cur St.
+  - destruct St as [->|[_ C]]; [reflexivity|contradiction].
+  - assert (Node : In cur tree_nodes) by (destruct St as [->|[P _]]; [now left|now right]).
+    (* one single-byte atom [b] on which the tree says: no F-C03, no utf-8 lead wait *)
+    assert (Single : forall b, a = [b] -> b < 256 ->
+              nonempty cur && (128 <=? b) && negb (encoding_eqb enc Latin1) = false ->
+              (forall full, encoding_eqb enc Utf8 && is_nil cur && in_range 192 253 b && negb full = false) ->
+              go_result enc cur (a :: atoms) (find_key_go enc BYTES cur (concat (a :: atoms)))).
+    { intros b -> Hb C1 C2. cbn [concat app find_key_go].
+      pose proof (one_step_tree cur b enc BYTES (is_nil (concat atoms)) Node Hb) as T.
+      unfold expected_step, expected_step_with in T. rewrite C1, C2 in T.
+      destruct (growable (cur ++ [b])) eqn:G; [destruct (is_nil (concat atoms)) eqn:F|].
+      - apply shape_key in T. destruct T as [n ->]. cbn [go_result]. exists [[b]], atoms. auto.
+      - apply shape_more in T. rewrite T.
+        assert (St' : ok_state (cur ++ [b]) atoms).
+        { right. split; [apply in_prefixes_In; now rewrite prefixes_correct|].
+          intro; subst atoms. discriminate. }
+        specialize (IH (cur ++ [b]) St').
+        destruct (find_key_go enc BYTES (cur ++ [b]) (concat atoms)) as [[[[k u] r]|]|e]; cbn [go_result] in *.
+        + destruct IH as [used' [atoms' [-> ->]]]. exists ([b] :: used'), atoms'. auto.
+        + subst atoms. discriminate.
+        + destruct IH as [I1 [I2 [p [b' [post [E I3]]]]]]. split; [assumption|]. split; [assumption|].
+          exists p, b', post. rewrite <- app_assoc in E. cbn [app] in E. auto.
+      - apply shape_key in T. destruct T as [n ->]. cbn [go_result]. exists [[b]], atoms. auto. }
+    destruct Ha as [b Hb | b -> Hb | c -> S L].
+    + apply (Single b); [reflexivity | lia | |].
+      * replace (128 <=? b) with false by lia. now rewrite andb_false_r.
+      * intro full. unfold in_range. replace (192 <=? b) with false by lia. cbn [andb].
+        now rewrite andb_false_r.
+    + apply (Single b); [reflexivity | assumption | now rewrite andb_false_r | reflexivity].
+    + destruct (utf8_atom_shape c S L) as [b0 [tail [E [Hb0 [Ht [Hh Hl]]]]]].
+      destruct St as [->|[P _]].
+      * cbn [concat].
+        assert (Tk : tok_ok Utf8 (utf8_encode c)).
+        { apply token_tok_ok. apply (tok_char Utf8 c).
+          - cbn [encode_char]. now rewrite S.
+          - apply multibyte_not_table; [assumption|lia]. }
+        rewrite (find_key_go_token Utf8 _ (concat atoms) Tk (utf8_encode c) []); [|reflexivity|apply Tk].
+        cbn [go_result]. exists [utf8_encode c], atoms. auto.
+      * cbn [concat]. rewrite E. cbn [app find_key_go].
+        assert (R : get_key Utf8 BYTES (is_nil (tail ++ concat atoms)) (cur ++ [b0]) = Err UnicodeDecodeError).
+        { apply one_step_raises_iff; [assumption | lia |]. repeat split; try lia; try discriminate.
+          intro; subst cur. now apply prefix_nonempty. }
+        rewrite R. cbn [go_result]. split; [discriminate|]. split; [reflexivity|].
+        exists cur, b0, (tail ++ concat atoms). repeat split; [assumption|lia].
+Qed.
+
+(* DESIGN C03 item 2, corollary.  For every stream of valid input (any number
+   of ASCII bytes / ESC-initiated table sequences and validly encoded
+   characters, the read ending on a character boundary), every encoding and
+   naming mode and any number of find_key calls: if decoding fails at all then
+   the encoding is utf-8 or ascii, the exception is UnicodeDecodeError, and a
+   member of KEYMAP_PREFIXES is directly followed by a byte >= 0x80 in the
+   stream -- the known finding F-C03.  (Conversely the decoder does fail whenever
+   its pending bytes are in KEYMAP_PREFIXES and the next byte is >= 0x80:
+   one_step_raises_iff.) *)
+Theorem valid_streams_fail_only_in_FC03 : forall enc mode atoms n e,
+  Forall (atom enc) atoms ->
+  find_keys_n n enc mode (concat atoms) = Raise e ->
+  e = UnicodeDecodeError /\ enc <> Latin1 /\ fc03_in (concat atoms).
+Proof.
+  intros enc mode atoms n e H R.
+  assert (RB : find_keys_n n enc BYTES (concat atoms) = Raise e).
+  { pose proof (cuts_mode_independent enc mode BYTES n (concat atoms)) as C. rewrite R in C. cbn [cuts] in C.
+    destruct (find_keys_n n enc BYTES (concat atoms)) as [[ks r]|e']; cbn [cuts] in C; [discriminate|].
+    now inversion C. }
+  clear R. revert atoms H RB. induction n as [|n IH]; intros atoms H R; [discriminate|].
+  cbn [find_keys_n] in R. unfold find_key in R.
+  pose proof (find_key_go_valid enc atoms H [] (or_introl eq_refl)) as G.
+  destruct (find_key_go enc BYTES [] (concat atoms)) as [[[[k u] r]|]|e'] eqn:F; cbn [go_result] in G.
+  - destruct G as [used' [atoms' [-> ->]]].
+    destruct (find_keys_n n enc BYTES (concat atoms')) as [[ks r']|e''] eqn:R'; [discriminate|].
+    inversion R; subst e''. apply Forall_app in H. destruct H as [_ H'].
+    destruct (IH atoms' H' R') as [I1 [I2 [pre [p [b [post [E [I3 I4]]]]]]]].
+    split; [assumption|]. split; [assumption|].
+    exists (concat used' ++ pre), p, b, post. rewrite concat_app, E, <- app_assoc. auto.
+  - discriminate.
+  - inversion R; subst e'. destruct G as [G1 [G2 [p [b [post [E [G3 G4]]]]]]].
+    split; [assumption|]. split; [assumption|]. exists [], p, b, post. cbn [app] in *. auto.
+Qed.
+
+Example valid_streams_nonvacuous :
+  find_keys Utf8 CURTSIES (concat [[27]; [91]; [49]; utf8_encode 233]) = Raise UnicodeDecodeError /\
+  mem [27; 91; 49] keymap_prefixes = true /\
+  is_ok (find_keys Utf8 CURTSIES (concat [[27]; [91]; [49]; [120]; utf8_encode 233; [27]])) = true.
+Proof. vm_compute. repeat split. Qed.
